@@ -61,7 +61,8 @@ def build(styles, nums, sizes, thr, test="alpha"):
     t = NonnegMean.alpha_mart if test == "alpha" else NonnegMean.kaplan_kolmogorov
     cons = s4.make_contests(IDS, sizes, cards_per={c: max(1, sum(1 for s in styles if c in s)) for c in IDS}, test=t, risk_limit=0.5)
     for c in IDS:
-        cons[c].sample_threshold = thr[c]
+        if thr[c] is not None:  # before a contest's first draw the Contest keeps whatever threshold it was constructed with
+            cons[c].sample_threshold = thr[c]
     return cards, cons
 
 
@@ -296,8 +297,10 @@ def worlds(pl):
         ps = list(itertools.permutations(range(n))) if perms == "all" else perms
         for styles in itertools.product(menu, repeat=n):
             for perm in ps:
-                # the smallest sample number is 0; every other world uses huge numbers that differ by 1 part in 10^18
-                yield (styles, tuple(10 * p for p in perm) if (len(styles[0]) + perm[0]) % 2 == 0 else tuple(10 ** 18 + p for p in perm))
+                # a third of the worlds: the smallest sample number is 0; a third: huge numbers that differ by 1 part in 10^18;
+                # a third: negative numbers
+                k = (len(styles[0]) + perm[0]) % 3
+                yield (styles, tuple(10 * p for p in perm) if k == 0 else (tuple(10 ** 18 + p for p in perm) if k == 1 else tuple(p - n for p in perm)))
 
 
 def run_shard(sh, rec):
